@@ -19,6 +19,7 @@ import (
 	"go/constant"
 	"go/token"
 	"go/types"
+	"regexp"
 	"sort"
 	"strings"
 
@@ -184,6 +185,7 @@ type Harness struct {
 }
 
 type State struct {
+	dyn    map[string]bool // outcomes assumed for comparisons on configuration values only (see freeConfigCond)
 	rank   map[string]int
 	bools  map[string]bool
 	choice map[string]int
@@ -228,6 +230,14 @@ func (s *State) String() string {
 	for _, c := range sortedKeys(s.h.Choices) {
 		parts = append(parts, fmt.Sprintf("%s=%d", c, s.choice[c]))
 	}
+	var dk []string
+	for k := range s.dyn {
+		dk = append(dk, k)
+	}
+	sort.Strings(dk)
+	for _, k := range dk {
+		parts = append(parts, fmt.Sprintf("assume %s=%v", k, s.dyn[k]))
+	}
 	return strings.Join(parts, " ")
 }
 
@@ -237,6 +247,7 @@ type Outcome struct {
 	Ret       []AV
 	Trace     []Effect
 	Undecided string // non-empty: the run left the decidable fragment
+	NeedDyn   string // non-empty: the run needs an assumption for this configuration-only comparison
 	Stopped   bool   // the harness ended the run early (StopAfter)
 	cells     map[string]*cell
 	Steps     int
@@ -451,6 +462,10 @@ func (h *Harness) RunState(w *World, st *State) (out *Outcome) {
 				out.Undecided = u.why
 				return
 			}
+			if d, ok := r.(needDyn); ok {
+				out.NeedDyn = d.key
+				return
+			}
 			if p, ok := r.(goPanic); ok {
 				out.Panicked = true
 				out.PanicVal = p.v
@@ -494,6 +509,23 @@ func (h *Harness) RunState(w *World, st *State) (out *Outcome) {
 
 type goPanic struct{ v AV }
 type stopRun struct{}
+type needDyn struct{ key string }
+
+var cfgLeaf = regexp.MustCompile(`recv\.config(\.[A-Za-z_][A-Za-z_0-9]*)+`)
+var cfgRest = regexp.MustCompile(`^(const\([^()]*\)|[\s()!<>=&|]|len)*$`)
+
+// freeConfigCond: the origin term of cond when it is built from fields of the receiver's configuration and constants
+// only; "" otherwise.
+func freeConfigCond(w *World, cond ssa.Value) string {
+	o := w.Origin(cond)
+	if !cfgLeaf.MatchString(o) {
+		return ""
+	}
+	if !cfgRest.MatchString(cfgLeaf.ReplaceAllString(o, "")) {
+		return ""
+	}
+	return o
+}
 
 // symbolic materialises a symbolic input named sym of type t.
 func (m *machine) symbolic(sym string, t types.Type) AV {
@@ -770,6 +802,17 @@ func (m *machine) call(fn *ssa.Function, args []AV, free []AV) []AV {
 				c := m.eval(fr, x.Cond)
 				cb, ok := c.(avBool)
 				if !ok {
+					// a comparison that involves nothing but configuration values and constants is a free input:
+					// both outcomes are explored (the same outcome for the same comparison within a run)
+					if key := freeConfigCond(m.w, x.Cond); key != "" {
+						v, has := m.st.dyn[key]
+						if !has {
+							panic(needDyn{key})
+						}
+						cb, ok = avBool{v}, true
+					}
+				}
+				if !ok {
 					m.fail("branch on a value not determined by the abstract state: %s at %s", avString(c), m.w.pos(x.Cond.Pos()))
 				}
 				if cb.b {
@@ -858,7 +901,13 @@ func (m *machine) eval(fr *frame, v ssa.Value) AV {
 		return m.constVal(x)
 	case *ssa.Global:
 		sym := x.Pkg.Pkg.Name() + "." + x.Name()
-		return avPtr{m.symCell(sym, x.Type().(*types.Pointer).Elem())}
+		c := m.symCell(sym, x.Type().(*types.Pointer).Elem())
+		if !c.have {
+			if v, ok := m.staticSliceInit(x); ok {
+				c.val, c.have = v, true
+			}
+		}
+		return avPtr{c}
 	case *ssa.Function:
 		return avFunc{fn: x}
 	case *ssa.Builtin:
@@ -1161,6 +1210,12 @@ func (m *machine) invoke(fr *frame, cc *ssa.CallCommon, args []AV, label string)
 		}
 	}
 	if target != nil {
+		if rs, ok := m.atomicIntrinsic(target, args); ok {
+			return rs
+		}
+		if rs, ok := m.slicesIntrinsic(target, args); ok {
+			return rs
+		}
 		name, _ := csmapMethod(cc)
 		inl := target.Blocks != nil && m.w.inModule(target) && name == "" && !m.h.NoInline[fname(target)] && !m.h.NoInline[label]
 		if inl && !m.h.InlineAll && pkgOfFn(target) != pkgOfFn(m.h.Fn) {
@@ -1409,6 +1464,18 @@ func (m *machine) compare(a, b AV, x *ssa.BinOp) (int, bool) {
 			}
 			return 1, true
 		}
+		// two symbolic strings declared as atoms of an equality-only group
+		if !av.isC && !bv.isC {
+			ra, oka := m.st.rank[av.sym]
+			rb, okb := m.st.rank[bv.sym]
+			if oka && okb {
+				if ra == rb {
+					return 0, true
+				}
+				return 1, true
+			}
+			return 0, false
+		}
 		// symbolic string against a constant: a declared boolean atom "<sym>==<const>"
 		s, c := av, bv
 		if s.isC {
@@ -1510,9 +1577,37 @@ type OAEResult struct {
 // RunOAE evaluates all abstract states and compares each outcome with spec (returns "" when it agrees).
 func RunOAE(w *World, h *Harness, spec func(st *State, out *Outcome) string) *OAEResult {
 	res := &OAEResult{}
-	sts := h.states()
-	for _, st := range sts {
-		out := h.RunState(w, st)
+	type run struct {
+		st  *State
+		out *Outcome
+	}
+	var runs []run
+	for _, base := range h.states() {
+		// fork on configuration-only comparisons the run meets (at most 5 per base state); every state is run once
+		work := []*State{base}
+		for len(work) > 0 {
+			st := work[0]
+			work = work[1:]
+			out := h.RunState(w, st)
+			if out.NeedDyn != "" && len(st.dyn) < 5 {
+				for _, v := range []bool{false, true} {
+					cp := *st
+					cp.dyn = map[string]bool{out.NeedDyn: v}
+					for k, x := range st.dyn {
+						cp.dyn[k] = x
+					}
+					work = append(work, &cp)
+				}
+				continue
+			}
+			if out.NeedDyn != "" {
+				out.Undecided = "too many configuration-only comparisons on one path: " + out.NeedDyn
+			}
+			runs = append(runs, run{st, out})
+		}
+	}
+	for _, r := range runs {
+		st, out := r.st, r.out
 		res.States++
 		if out.Undecided != "" {
 			if len(res.Undecided) < 5 {
@@ -1574,4 +1669,238 @@ func pkgOfFn(f *ssa.Function) string {
 		}
 	}
 	return ""
+}
+
+// atomicIntrinsic models sync/atomic's typed values as plain cells: x.Load() reads and x.Store(v) writes the cell
+// that holds x (for Bool the cell is read as a declared boolean atom of the same name, exactly like a plain bool
+// field). Swap and CompareAndSwap are modelled as the sequentially-executed read-modify-write they are.
+func (m *machine) atomicIntrinsic(target *ssa.Function, args []AV) ([]AV, bool) {
+	kind, method := atomicMethod(target)
+	if kind == "" || len(args) == 0 {
+		return nil, false
+	}
+	p, ok := args[0].(avPtr)
+	if !ok || p.c == nil {
+		return nil, false
+	}
+	c := p.c
+	var vt types.Type
+	switch kind {
+	case "Bool":
+		vt = types.Typ[types.Bool]
+	case "Int32":
+		vt = types.Typ[types.Int32]
+	case "Int64":
+		vt = types.Typ[types.Int64]
+	case "Uint32":
+		vt = types.Typ[types.Uint32]
+	case "Uint64":
+		vt = types.Typ[types.Uint64]
+	default:
+		return nil, false
+	}
+	load := func() AV {
+		if !c.have || c.val == nil {
+			if c.sym != "" {
+				c.val = m.symbolic(c.sym, vt)
+			} else {
+				c.val = m.zero(vt)
+			}
+			c.have = true
+		}
+		return c.val
+	}
+	store := func(v AV) {
+		c.val, c.have, c.written, c.fields = v, true, true, nil
+	}
+	switch method {
+	case "Load":
+		return []AV{load()}, true
+	case "Store":
+		if len(args) == 2 {
+			store(args[1])
+			return nil, true
+		}
+	case "Swap":
+		if len(args) == 2 {
+			old := load()
+			store(args[1])
+			return []AV{old}, true
+		}
+	}
+	return nil, false
+}
+
+// atomicMethod: ("Bool", "Load") for (*sync/atomic.Bool).Load etc.; ("", "") otherwise.
+func atomicMethod(f *ssa.Function) (string, string) {
+	if f == nil || f.Signature.Recv() == nil || f.Pkg == nil || f.Pkg.Pkg.Path() != "sync/atomic" {
+		return "", ""
+	}
+	return recvTypeName(f.Signature.Recv().Type()), f.Name()
+}
+
+// staticSliceInit: a module-level slice variable that is assigned exactly once, in its package initialiser, from a
+// literal whose elements are constants or other packages' variables (sentinel errors) is materialised with those
+// elements instead of being an unknown input.
+func (m *machine) staticSliceInit(g *ssa.Global) (AV, bool) {
+	if _, isSlice := g.Type().(*types.Pointer).Elem().Underlying().(*types.Slice); !isSlice || g.Pkg == nil || !strings.HasPrefix(g.Pkg.Pkg.Path(), modPath) {
+		return nil, false
+	}
+	var stores []*ssa.Store
+	for _, fn := range m.w.ModFuncs {
+		allInstrs(fn, func(in ssa.Instruction) {
+			if st, ok := in.(*ssa.Store); ok && st.Addr == ssa.Value(g) {
+				stores = append(stores, st)
+			}
+		})
+	}
+	if len(stores) != 1 || stores[0].Parent().Name() != "init" {
+		return nil, false
+	}
+	// []byte("constant"): the bytes of the constant (represented, like every []byte(string) conversion, by the string)
+	if cv, isConv := stores[0].Val.(*ssa.Convert); isConv {
+		if k, isK := cv.X.(*ssa.Const); isK && k.Value != nil && k.Value.Kind() == constant.String {
+			return avStr{isC: true, conc: constant.StringVal(k.Value)}, true
+		}
+		return nil, false
+	}
+	sl, ok := stores[0].Val.(*ssa.Slice)
+	if !ok || sl.Low != nil || sl.High != nil {
+		return nil, false
+	}
+	arr, ok := sl.X.(*ssa.Alloc)
+	if !ok {
+		return nil, false
+	}
+	at, ok := arr.Type().(*types.Pointer).Elem().Underlying().(*types.Array)
+	if !ok {
+		return nil, false
+	}
+	cells := make([]*cell, int(at.Len()))
+	for _, r := range *arr.Referrers() {
+		ia, ok := r.(*ssa.IndexAddr)
+		if !ok {
+			continue
+		}
+		idx, ok := ia.Index.(*ssa.Const)
+		if !ok {
+			return nil, false
+		}
+		i := int(idx.Int64())
+		for _, r2 := range *ia.Referrers() {
+			st, ok := r2.(*ssa.Store)
+			if !ok || st.Addr != ssa.Value(ia) {
+				continue
+			}
+			var v AV
+			switch e := st.Val.(type) {
+			case *ssa.Const:
+				v = m.constVal(e)
+			case *ssa.UnOp:
+				if eg, isG := e.X.(*ssa.Global); isG && e.Op == token.MUL {
+					v = m.symbolic(eg.Pkg.Pkg.Name()+"."+eg.Name(), eg.Type().(*types.Pointer).Elem())
+				}
+			}
+			if v == nil {
+				return nil, false
+			}
+			c := newCell(at.Elem())
+			c.val, c.have = v, true
+			cells[i] = c
+		}
+	}
+	for _, c := range cells {
+		if c == nil {
+			return nil, false
+		}
+	}
+	return avSlice{cells: cells}, true
+}
+
+// slicesIntrinsic models the search helpers of package slices over a slice with known elements by running the
+// predicate on each element in order, as the library does.
+func (m *machine) slicesIntrinsic(target *ssa.Function, args []AV) ([]AV, bool) {
+	o := target
+	if target.Origin() != nil {
+		o = target.Origin()
+	}
+	if o.Pkg == nil || o.Pkg.Pkg.Path() != "slices" {
+		return nil, false
+	}
+	elems := func(a AV) ([]*cell, bool) {
+		s, ok := a.(avSlice)
+		if !ok {
+			return nil, false
+		}
+		if s.isNil {
+			return nil, true
+		}
+		if s.cells == nil && s.sym != "" {
+			return nil, false
+		}
+		return s.cells, true
+	}
+	pred := func(f AV, xs ...AV) (bool, bool) {
+		fv, ok := f.(avFunc)
+		if !ok || fv.fn == nil {
+			return false, false
+		}
+		rs := m.call(fv.fn, xs, fv.bindings)
+		if len(rs) != 1 {
+			return false, false
+		}
+		b, ok := rs[0].(avBool)
+		if !ok {
+			m.fail("predicate handed to slices.%s is not determined by the abstract state: %s", o.Name(), avString(rs[0]))
+		}
+		return b.b, true
+	}
+	switch o.Name() {
+	case "IndexFunc", "ContainsFunc":
+		if len(args) != 2 {
+			return nil, false
+		}
+		cs, ok := elems(args[0])
+		if !ok {
+			return nil, false
+		}
+		found := -1
+		for i, c := range cs {
+			r, ok := pred(args[1], m.loadCell(c))
+			if !ok {
+				return nil, false
+			}
+			if r {
+				found = i
+				break
+			}
+		}
+		if o.Name() == "ContainsFunc" {
+			return []AV{avBool{found >= 0}}, true
+		}
+		return []AV{avInt{conc: int64(found)}}, true
+	case "EqualFunc":
+		if len(args) != 3 {
+			return nil, false
+		}
+		a, ok1 := elems(args[0])
+		b, ok2 := elems(args[1])
+		if !ok1 || !ok2 {
+			return nil, false
+		}
+		if len(a) != len(b) {
+			return []AV{avBool{false}}, true
+		}
+		for i := range a {
+			r, ok := pred(args[2], m.loadCell(a[i]), m.loadCell(b[i]))
+			if !ok {
+				return nil, false
+			}
+			if !r {
+				return []AV{avBool{false}}, true
+			}
+		}
+		return []AV{avBool{true}}, true
+	}
+	return nil, false
 }
